@@ -42,11 +42,18 @@ TunnelLetters == {"tunrefused", "tun407", "tungarbage", "tunextra"}
 \* of a response, a DATA frame on stream 0, a header block that is not HPACK - no response; "h2rstmid" (below): HEADERS 200
 \* and a part of the body, then RST_STREAM; "h2flood" (below): thousands of SETTINGS and PING frames, then a good response
 H2NetLetters == {"h2goaway", "h2rst", "h2badframe", "h2hpackbad"}
-NetLetters  == {"badstatus", "badheader", "hugeheader", "closebefore", "closeduring", "refused", "timeout", "many1xx"} \cup TlsLetters
+\* the ANNOUNCED length of the body is a number chosen by the peer.  "cl2p62" / "clmax64": Content-Length 2^62 / 2^63-1 (the
+\* largest the client's int64 holds), 25 bytes of body, then the peer hangs up: status and headers arrive, the body ends
+\* early - whoever reads it, however (drained, read into memory for postprocessors / answlog / debug log).  "cl2p63" /
+\* "cl1e20": 2^63 / 10^20, no length a client can accept: no response at all.  (TLC's integers are 32 bit: the numbers live
+\* in the renderer, scentarget.AnnouncedLength; here they are letters.)
+LenBodyLetters == {"cl2p62", "clmax64"}
+LenNetLetters  == {"cl2p63", "cl1e20"}
+NetLetters  == LenNetLetters \cup {"badstatus", "badheader", "hugeheader", "closebefore", "closeduring", "refused", "timeout", "many1xx"} \cup TlsLetters
                \cup AvailLetters \cup TunnelLetters \cup H2NetLetters
 \* chunked bodies with a chunk size that overflows / is negative / whose data is not followed by CRLF / that end inside a
 \* chunk; "gzipbad": Content-Encoding gzip on a body that is no gzip stream, client configured to decompress
-BodyLetters == {"trunc", "badchunk", "chunkhuge", "chunkneg", "chunknocrlf", "chunktrunc", "gzipbad", "h2rstmid"}
+BodyLetters == LenBodyLetters \cup {"trunc", "badchunk", "chunkhuge", "chunkneg", "chunknocrlf", "chunktrunc", "gzipbad", "h2rstmid"}
 \* "lst*": a well-formed 200 whose JSON body has, under the key `list` that later steps index, an EMPTY array / an array
 \* of one element / a string / null / an object (every other JSON-bodied letter: an array of two elements)
 ListLetters == {"lst0", "lst1", "lststr", "lstnull", "lstobj"}
@@ -81,12 +88,18 @@ GrpcCodes   == 0..16 \cup {17, 42, 2147483647}
 \* "gempty": status OK, the reply message is empty (no field set); "ggarbage": status OK, the message bytes cannot be
 \* decoded; "gkillmid": the response headers arrive, then the connection is closed (the stream ends in the middle).
 \* (Trailers-only responses are what every error code letter is: the server answers an error without headers or message.)
-GrpcLetters == {[l |-> "code", code |-> c] : c \in GrpcCodes}
+\* "w*": status OK and a reply whose TYPE is one of protobuf's well-known types (a second service of the target, every method
+\* takes google.protobuf.Empty): Empty, Timestamp, Duration, StringValue, Int64Value, BoolValue, BytesValue, Struct,
+\* ListValue, Any.  A client built on dynamic messages gets the generated type for these, and their JSON form is special:
+\* an object only for Empty, Struct and Any (protobuf JSON mapping); a string / number / bool / array for the others.
+WktLetters  == {"wempty", "wtime", "wdur", "wstring", "wint64", "wbool", "wbytes", "wstruct", "wlist", "wany"}
+WktObject   == {"wempty", "wstruct", "wany"}
+GrpcLetters == {[l |-> "code", code |-> c] : c \in GrpcCodes} \cup {Plain(l) : l \in WktLetters}
                \cup {Plain("gbig"), Plain("gtoobig"), Plain("gslow"), Plain("gkill"), Plain("gempty"), Plain("ggarbage"), Plain("gkillmid")}
                \cup {Plain(l) : l \in AvailLetters}
-GrpcOK(x)   == (x.l = "code" /\ x.code = 0) \/ x.l \in {"gbig", "gempty"}
+GrpcOK(x)   == (x.l = "code" /\ x.code = 0) \/ x.l \in {"gbig", "gempty"} \cup WktLetters
 \* the reply message carries the greeting the grpc/scenario runs assert on
-GrpcGreets(x) == GrpcOK(x) /\ x.l # "gempty"
+GrpcGreets(x) == GrpcOK(x) /\ x.l # "gempty" /\ x.l \notin WktLetters
 
 \* ---------------------------------------------------------------- postprocessors of step "a" of a scenario gun
 Posts == {"none", "jsonpath", "header_substr", "xpath", "assert", "all"}
@@ -157,7 +170,12 @@ GrpcOutcome(x) == IF GrpcOK(x) THEN Smp(200, FALSE, FALSE) ELSE Smp(GE400, FALSE
 \* grpc/scenario: a has assert/response(status_code 200, payload ["Hello"]); a failed assertion ends the shot,
 \* its sample carries the received code
 \* (an OK reply without the greeting fails the payload assertion: the sample keeps the code 200, the shot ends)
-GrpcScenOutcome(x) == IF GrpcGreets(x) THEN <<Smp(200, FALSE, FALSE), Smp(200, FALSE, FALSE)>>
+\* a well-known-type reply has no greeting: for these letters step a asserts the status only, and the reply goes on into the
+\* step's variables (a JSON object).  A reply whose JSON form is no object cannot become variables: the step's sample keeps the
+\* code 200, the shot ends there - never the run.
+GrpcScenOutcome(x) == IF x.l \in WktLetters
+                      THEN (IF x.l \in WktObject THEN <<Smp(200, FALSE, FALSE), Smp(200, FALSE, FALSE)>> ELSE <<Smp(200, FALSE, FALSE)>>)
+                      ELSE IF GrpcGreets(x) THEN <<Smp(200, FALSE, FALSE), Smp(200, FALSE, FALSE)>>
                       ELSE IF GrpcOK(x) THEN <<Smp(200, FALSE, FALSE)>>
                       ELSE <<Smp(GE400, FALSE, FALSE)>>
 
@@ -210,16 +228,26 @@ Shot(i) == /\ pc[i] = "shoot" /\ poolErr = "none"
            /\ pc' = [pc EXCEPT ![i] = "idle"]
            /\ UNCHANGED <<run, taken, cur, poolErr>>
 
+\* which of the unchecked uses below the negative control switches on (all; the cfg of a negative control that is to prove ONE
+\* rule non-vacuous substitutes a singleton: CONSTANT PanicKinds <- PanicAnnounced)
+PanicKinds == {"substr", "idx", "announced", "grpccode", "wkt", "tls"}
+PanicAnnounced == {"announced"}
+PanicWkt == {"wkt"}
 \* negative control: response-derived data used unchecked - Shoot panics, instance.Run recovers it into
 \* "shoot panic", the pool fails and every instance is cancelled
 ShotPanic(i) == /\ RespCanPanic /\ pc[i] = "shoot" /\ poolErr = "none"
-                /\ \/ run.gun = "http/scenario" /\ Has(run.posts, "header_substr") /\ HdrTok(cur[i]) = "short"
+                /\ \/ "substr" \in PanicKinds /\ run.gun = "http/scenario" /\ Has(run.posts, "header_substr") /\ HdrTok(cur[i]) = "short"
                    \* or: a symbolic index into a response-derived list that is empty
-                   \/ run.gun = "http/scenario" /\ run.posts \in IdxPosts /\ ListKind(cur[i]) = "empty"
+                   \/ "idx" \in PanicKinds /\ run.gun = "http/scenario" /\ run.posts \in IdxPosts /\ ListKind(cur[i]) = "empty"
+                   \* or: a buffer sized by the length the peer ANNOUNCES, where the step reads the body into memory
+                   \/ "announced" \in PanicKinds /\ run.gun \in {"http/scenario", "http2/scenario"} /\ run.posts # "none"
+                      /\ cur[i].l \in LenBodyLetters
                    \* or: a table lookup with the peer's gRPC status code
-                   \/ run.gun \in {"grpc", "grpc/scenario"} /\ cur[i].l = "code" /\ cur[i].code > 16
+                   \/ "grpccode" \in PanicKinds /\ run.gun \in {"grpc", "grpc/scenario"} /\ cur[i].l = "code" /\ cur[i].code > 16
+                   \* or: the reply taken for a dynamic message whatever its type (the scenario gun turns an OK reply into variables)
+                   \/ "wkt" \in PanicKinds /\ run.gun = "grpc/scenario" /\ cur[i].l \in WktLetters
                    \* or: every TLS alert of the peer mistaken for the documented "target has no HTTP/2"
-                   \/ run.gun \in {"http2", "http2/scenario"} /\ cur[i].l \in TlsLetters
+                   \/ "tls" \in PanicKinds /\ run.gun \in {"http2", "http2/scenario"} /\ cur[i].l \in TlsLetters
                 /\ poolErr' = "panic"
                 /\ due' = due + Len(Outcome(run.gun, cur[i], run.posts))
                 /\ pc' = [j \in 1..NInst |-> "done"]
